@@ -1706,10 +1706,18 @@ class Analyzer:
             j0, j1 = alo // m, ahi // m
             if j0 == j1:
                 return al.addc(-j0 * m), alo - j0 * m, ahi - j0 * m
-            # canonical representative: shift by multiples of m so that lower bound in [0,m)
-            base = al.addc(-j0 * m)
-            blo, bhi = alo - j0 * m, ahi - j0 * m
+            # canonical representative, independent of the current box: the constant part reduced into [0, m)
+            # (valid when that form is still non-negative: both forms are >= 0 and congruent, so they have one remainder)
+            base = al
+            if al.d == 1:
+                c0 = al.cn % m
+                cand = al.addc(c0 - al.cn)
+                if alo + (c0 - al.cn) >= 0:
+                    base = cand
             s = self.pmint(st, T("rem+", base.key(), m), 0, m - 1, (base,))
+            # relational fact: base - rem is a multiple of m within the quotient range
+            blo, bhi = st.rng_lin_int(base)
+            st.constrain(base.sub(Lin.sym(s)), (blo // m) * m, (bhi // m) * m, mod=m)
             return Lin.sym(s), 0, m - 1
         else:
             # al <= 0 : r = -((-al) rem m)
@@ -2076,9 +2084,13 @@ class Analyzer:
     def x_fpext(self, st, i):
         a = self.fval(st, i.ops[0])
         lo, hi, nan = self.frng(st, a)
-        r = self.F(st, i.ty.kind, lo, hi, nan, T("fpext", a.term), a.xlin, a.slin)
         if i.ty.kind == "x86_fp80":
+            r = self.F(st, i.ty.kind, lo, hi, nan, T("fpext", a.term), a.xlin, a.slin)
             self.fp80src[r.term] = a
+        else:
+            # widening is the identity on values: the result shares the source's range symbol, so that a
+            # comparison on the widened value refines the original (e.g. float range test done in double)
+            r = FpV(i.ty.kind, lo, hi, nan, T("fpext", a.term), a.xlin, a.fsym, a.slin)
         st.env[i.res] = r
 
     def x_fptrunc(self, st, i):
